@@ -1,0 +1,6 @@
+//go:build !verif
+
+package mqtt
+
+// verifYield is a no-op without the "verif" build tag (see verif_on.go).
+func verifYield(string, *Client) {}
